@@ -130,8 +130,8 @@ Theorem compile_TJ :
   (forall ms n X fs, TJ n X fs (cmethods ms) (fun _ => fs) (fun _ => X) n).
 Proof.
   apply lsyntax_mutind; intros; simpl.
-  all: try solve [ timeout 30 go ].
-  all: try solve [ destruct kind; timeout 30 go ].
+  all: try solve [ timeout 600 go ].
+  all: try solve [ destruct kind; timeout 600 go ].
 Qed.
 Print Assumptions compile_TJ.
 
